@@ -1,4 +1,5 @@
 import CattrsModel.Dispatch.LemmasHist
+import CattrsModel.Dispatch.StoreHist
 import CattrsModel.Dispatch.Sig
 /-!
 # C07 — hook precedence follows the documented rule after any registration history
@@ -143,6 +144,52 @@ theorem C07_nested_call_late (F : Facts) (cfg : Cfg) (h : List Op) (t : TyKey) (
   rw [behaveWith_unfold, hb]
   simp [behaveCore, hl]
 
+/-- **C07_precedence_store.**  The rule for a converter ANYWHERE in a program — in particular one obtained through
+`copy()` / `deepcopy` / `copy(**overrides)`, a copy of a copy, with registrations made on it, on its source and on
+other converters before and after the copy was taken.  Start from any freshly constructed converters and run any
+store history (`SOp.on i op`: registration / dispatch / call on converter `i`; `SOp.copy src cfg'`).  `origins`
+(Dispatch/StoreHist.lean) reads off the store history alone, for every converter, how it was constructed (`o.cfg`: for
+a copy what `__init__` registers under the copy's options, with the source's fallback factory) and ITS history
+(`o.hist`: for a copy the registrations its source had received when the copy was taken, followed by the operations
+addressed to the copy itself — nothing done to the source or to any other converter afterwards).  Then every converter
+of the final store answers — cache-free lookup, cached and uncached dispatch, and calls (nested lookups included) —
+exactly what the documented rule selects for its own construction and its own history. -/
+theorem C07_precedence_store (F : Facts) (st : Bool) (sg : List (TyKey × Hook)) (cfgs : List Cfg)
+    (hcfgs : ∀ c ∈ cfgs, c.fits st sg) (sops : List SOp) (hsops : ∀ op ∈ sops, op.fits st sg) :
+    (srun F (cfgs.map init) sops).length = (origins cfgs sops).length ∧
+    ∀ (i : Nat) (s : St) (o : Origin),
+      (srun F (cfgs.map init) sops)[i]? = some s → (origins cfgs sops)[i]? = some o → ∀ t : TyKey,
+        resolve F s.regs t = spec F o.cfg o.hist t ∧
+        (dispatch F s t).2 = spec F o.cfg o.hist t ∧
+        (dispatchUncached F s t).2 = spec F o.cfg o.hist t ∧
+        (call F s t).2 = specCall F o.cfg o.hist t := by
+  have tr := srun_tracked F st sg sops _ _ (tracked_fresh F st sg cfgs hcfgs) hsops
+  refine ⟨tr.1, fun i s o hs ho t => ?_⟩
+  have k := tr.2 i s o hs ho
+  have hr : ∀ t, resolve F s.regs t = resolve F (regsAfter F o.cfg o.hist) t := resolve_congr F k.equiv
+  have hres : resolve F s.regs t = spec F o.cfg o.hist t := by rw [hr, resolve_spec]
+  refine ⟨hres, ?_, ?_, ?_⟩
+  · rw [(dispatch_good F s t k.ok).val, hres]
+  · rw [(dispatchUncached_good F s t k.ok).val, hres]
+  · rw [(call_good F s t k.ok).2.2, hr, behave_congr F hr]
+    exact specCall_eq F o.cfg o.hist t
+
+/-- **C07_copy_history.**  What `origins` says about the converter a `copy` appends, spelled out: it sits at the next
+index, is constructed as `cfg'` with the source's fallback factory, and starts with the registrations of the source's
+history; an operation addressed to converter `i` is appended to the history of `i` and of no other converter. -/
+theorem C07_copy_history (os : List Origin) (src : Nat) (cfg' : Cfg) (o : Origin) (ho : os[src]? = some o) (i : Nat) (op : Op) :
+    (ostep os (.copy src cfg'))[os.length]? =
+        some { cfg := { cfg' with fb := o.cfg.fb }, hist := o.hist.filter Op.isReg } ∧
+    (∀ j, j < os.length → (ostep os (.copy src cfg'))[j]? = os[j]?) ∧
+    (ostep os (.on i op))[i]? = os[i]?.map (fun o => { o with hist := o.hist ++ [op] }) ∧
+    (∀ j, j ≠ i → (ostep os (.on i op))[j]? = os[j]?) := by
+  refine ⟨?_, fun j hj => ?_, ?_, fun j hj => ?_⟩
+  · simp [ostep, ho, Origin.copied]
+  · simp only [ostep, ho]; exact List.getElem?_append_left hj
+  · simp [ostep, Origin.snoc]
+  · simp only [ostep, List.getElem?_modify, if_neg (Ne.symm hj)]
+    cases os[j]? <;> rfl
+
 /-! ## non-vacuity: a concrete universe, construction and history -/
 namespace C07ex
 
@@ -218,6 +265,37 @@ example : Sig.regular [⟨.posOrKw, false⟩, ⟨.posOrKw, true⟩, ⟨.varKw, f
 example : (dispatch F (run F (init cfg) hist) 4).2 = .made 4 4 true [.user 1] :=
   (C07_factory_receives F cfg hist 4 { pred := .tbl 1, kind := .extended, tag := 4, sub := .cached }
     [⟨.posOrKw, false⟩, ⟨.posOrKw, false⟩] (by decide) (by decide) (by decide) rfl).trans (by decide)
+
+/-! store histories: a copy taken in the middle of a history, registrations on both sides afterwards -/
+
+/-- an Annotated-like spelling of A (key 7): a built-in factory that looks the hook of A up through the converter -/
+def Fs : Facts :=
+  { F with comps := fun t => if t = 7 then [0] else F.comps t, rank := fun t => if t = 7 then 1 else F.rank t }
+
+def cfgS : Cfg :=
+  { cfg with preds := cfg.preds ++ [{ pred := .exact 7, kind := .factory, tag := 207, builtin := true, sub := .cached }] }
+
+def shist : List SOp :=
+  [ .on 0 (.regHook 0 1), .on 0 (.call 7), .copy 0 cfgS, .on 1 (.regHook 0 2), .on 0 (.regPred { pred := .tbl 2, kind := .plain, tag := 3 }),
+    .copy 1 cfgS, .on 2 (.regHook 3 4), .on 0 (.regHook 0 5) ]
+
+example : cfgS.fits true cfgS.single := ⟨by decide, rfl, rfl⟩
+example : ∀ op ∈ shist, op.fits true cfgS.single := by
+  intro op hop
+  simp only [shist, List.mem_cons, List.not_mem_nil, or_false] at hop
+  rcases hop with rfl | rfl | rfl | rfl | rfl | rfl | rfl | rfl <;>
+    first | trivial | exact ⟨by decide, rfl, rfl⟩
+-- the histories of the three converters: the copy (1) has the source's first registration and its own, not the
+-- source's later ones; the copy of the copy (2) has those of (1) at ITS copy time and its own
+example : (origins [cfgS] shist).map (fun o => o.hist.filter Op.isReg) =
+    [ [.regHook 0 1, .regPred { pred := .tbl 2, kind := .plain, tag := 3 }, .regHook 0 5],
+      [.regHook 0 1, .regHook 0 2], [.regHook 0 1, .regHook 0 2, .regHook 3 4] ] := rfl
+-- A spelled plainly (0) and through the Annotated-like factory (7), on the three converters: each sees the latest
+-- class hook of ITS history — also nested; P (6) has the predicate hook only on the source
+example : (srun Fs [init cfgS] shist).map (fun s => ((dispatch Fs s 0).2, (dispatch Fs s 7).2, (dispatch Fs s 6).2)) =
+    [ (.user 5, .made 207 7 false [.user 5], .user 3), (.user 2, .made 207 7 false [.user 2], .fallback 0 6),
+      (.user 2, .made 207 7 false [.user 2], .fallback 0 6) ] := by decide
+example : (dispatch Fs ((srun Fs [init cfgS] shist)[1]!) 7).2 = spec Fs cfgS [.regHook 0 1, .regHook 0 2] 7 := by decide
 
 /-- a BaseConverter-like unstructure table: lists handled by a late-binding hook (300) -/
 def cfgLate : Cfg :=
